@@ -380,14 +380,47 @@ class Verifier(Engine):
                     f2 = source.load_function(c2.file, c2.func)
                 except Exception:
                     continue
-                for n in ast.walk(f2.node):
-                    if isinstance(n, ast.Call):
-                        nm = n.func.attr if isinstance(n.func, ast.Attribute) else n.func.id if isinstance(n.func, ast.Name) else None
-                        if nm:
-                            names.add((nm, c2.key))
+                roots = [f2.node]
+                if c2.opts.get("block"):
+                    # a block contract only executes the statements of its block: calls elsewhere in the enclosing function are not its callees
+                    try:
+                        roots = self.block_statements(c2, f2)
+                    except Exception:
+                        roots = [f2.node]
+                for root in roots:
+                    for n in ast.walk(root):
+                        if isinstance(n, ast.Call):
+                            nm = n.func.attr if isinstance(n.func, ast.Attribute) else n.func.id if isinstance(n.func, ast.Name) else None
+                            if nm:
+                                names.add((nm, c2.key))
             self._callee_names = names
         return any(nm == c.name and key != c.key for nm, key in self._callee_names) or \
             any(nm == c.name and key == c.key for nm, key in self._callee_names)
+
+    def block_statements(self, c, fsrc):
+        """the statements a block contract covers (same lookup as verify_function)"""
+        blk = c.opts["block"]
+        if isinstance(blk, (tuple, list)):
+            first, last = blk
+            found = []
+            for n in ast.walk(fsrc.node):
+                for fld in ("body", "orelse", "finalbody"):
+                    lst = getattr(n, fld, None)
+                    if isinstance(lst, list) and lst and isinstance(lst[0], ast.stmt):
+                        hs = [stmt_header(x) for x in lst]
+                        m1 = [i_ for i_, h_ in enumerate(hs) if hdr_match(first, h_)]
+                        m2 = [i_ for i_, h_ in enumerate(hs) if m1 and i_ >= m1[0] and hdr_match(last, h_)]
+                        if last == "<end>" and m1:
+                            m2 = [len(lst) - 1]
+                        if m1 and m2:
+                            found.append(lst[m1[0]:m2[0] + 1])
+            if len(found) != 1:
+                raise CheckerError("block not found")
+            return found[0]
+        found = [n for n in ast.walk(fsrc.node) if isinstance(n, ast.stmt) and hdr_match(blk, stmt_header(n))]
+        if len(found) != 1:
+            raise CheckerError("block not found")
+        return [found[0]]
 
     def sat_known(self, st):
         return self._check(st) != z3.unsat
@@ -809,6 +842,28 @@ class Verifier(Engine):
 
     # ------------------------------------------------------------------ try
     def st_Try(self, s, st, fx):
+        if fx.contract is not None and fx.contract.opts.get("abstract_try") and fx.contract.opts.get("block") == "Try":
+            # COVERAGE of a try statement: the body is abstracted to "arbitrary effect, may raise ANY subclass of Exception" (a sound
+            # over-approximation of whatever it contains); the obligation is that every such exception is caught by a handler.  The
+            # handler bodies are not executed here (they are under block contracts of their own).
+            c_ = fresh("exc_cls", IntS)
+            s_r = st.copy()
+            s_r.assume(sub(c_, cid("Exception")))
+            self.havoc_heap(s_r, ["*"], {}, s.lineno)
+            cur = s_r
+            for h in s.handlers:
+                if h.type is None:
+                    cur = None
+                    break
+                ec = self.new_ec(cur, fx)
+                ids = self.class_ids_of(h.type, ec)
+                cur = cur.copy()
+                cur.assume(z3.Not(z3.Or([sub(c_, k) for k in ids])))
+            res_ = [(NORMAL, None, st)]
+            if cur is not None:
+                self.emit(fx, "handler-covers", s.lineno, cur, z3.BoolVal(False),
+                          note="every Exception the try body may raise is caught by one of its handlers")
+            return res_
         outs = self.run_block(s.body, st, fx)
         res = []
         for kind, payload, s2 in outs:
